@@ -181,7 +181,9 @@ def rule_E14(run: Run, prog: Program) -> int:
     n = 0
     wrong: dict[str, list[str]] = {}
     unsupported: dict[str, int] = {}
+    samples_: list[str] = []
     n_err = 0
+    n_ok = 0
     for types, edges in diagrams(run.tier == "thorough"):
         for mixed in (False, True):
             if mixed and not any(t[1] and t[2] for t in types):
@@ -207,6 +209,9 @@ def rule_E14(run: Run, prog: Program) -> int:
             if got_err:
                 wrong.setdefault("spurious error", []).append(f"{desc}: raises {got_err} although every edge finds an unused index")
                 continue
+            n_ok += 1
+            if len(samples_) < 6 and n_ok % 977 == 1:
+                samples_.append(f"{desc}: recorded np.einsum subscripts {_canonical(captured['einsum'])}")
             diff = compare(exp, captured, objs)
             if diff:
                 seen_nodes: set = set()
@@ -234,6 +239,10 @@ def rule_E14(run: Run, prog: Program) -> int:
             unsupported[str(e)] = unsupported.get(str(e), 0) + 1
     run.stats["diagram_shapes"] = n
     run.stats["diagram_shapes_with_exhausted_indices"] = n_err
+    if not hasattr(run, "enumerated"):
+        run.enumerated, run.case_samples = {}, {}
+    run.enumerated["E14"] = n - sum(unsupported.values())
+    run.case_samples["E14"] = samples_
     if unsupported:
         worst = sorted(unsupported.items(), key=lambda kv: -kv[1])[:3]
         run.add("E14", "TensorDiagram.calculate", "vocabulary", UNDECIDED,
